@@ -381,7 +381,7 @@ def main(prop, judge, make, sizes, describe, argv=None):
 
     exit_code = 0
     reported = []
-    for sig in sorted(new_viol)[:6]:
+    for sig in sorted(new_viol)[:4]:
         r, v = sorted(new_viol[sig], key=lambda rv: (len(rv[0]["spec"]["ops"]), rv[0]["task"]))[0]
         print("violation class %s: %d occurrence(s); first: run %s step %s: %s" % (
             sig, len(new_viol[sig]), r["task"], v.get("step"), json.dumps(v, default=_jsonable)[:500]), flush=True)
@@ -398,8 +398,8 @@ def main(prop, judge, make, sizes, describe, argv=None):
         reported.append({"signature": sig, "replay": path, "info": info, "runs": len(new_viol[sig])})
         print("VIOLATION property=%s replay=%s" % (prop, path), flush=True)
         exit_code = 1
-    if len(new_viol) > 6:
-        print("(%d further violation classes not minimised: %s)" % (len(new_viol) - 6, sorted(new_viol)[6:]))
+    if len(new_viol) > 4:
+        print("(%d further violation classes not minimised: %s)" % (len(new_viol) - 4, sorted(new_viol)[4:]))
 
     # shared process state by discovery: anything dirty that the committed baseline does not list is reported (information)
     base_path = os.path.join(VERIF_ROOT, "shared_state_baseline.json")
